@@ -334,6 +334,84 @@ func checkEncodeDecode(c *core.Ctx, msg any, minor int, label string) bool {
 
 const contexts = 6
 
+// sequenceCase: several messages for DIFFERENT versions leave through ONE long-lived encoder, either appended one
+// after the other or with Clear() in between; each one must be gated by its own header version.
+func sequenceCase(c *core.Ctx, r *core.Rand, i int) {
+	enc := []string{"ttlv", "ttlv", "xml", "json"}[i%4]
+	appendMode := enc == "ttlv" && (i/4)%2 == 0
+	var e ttlv.Encoder
+	var parse func([]byte) (wire.Node, error)
+	switch enc {
+	case "xml":
+		e, parse = ttlv.NewXMLEncoder(), xtree.ParseXML
+	case "json":
+		e, parse = ttlv.NewJSONEncoder(), xtree.ParseJSON
+	default:
+		e, parse = ttlv.NewTTLVEncoder(), wire.Parse
+	}
+	K := 2 + r.Intn(3)
+	seq := ""
+	prev := 0
+	for k := 0; k < K; k++ {
+		minor := r.Intn(5)
+		if k > 0 && r.P(2, 3) {
+			// make sure the version changes in both directions over the sequence
+			minor = (prev + 1 + r.Intn(4)) % 5
+		}
+		prev = minor
+		seq += fmt.Sprint(minor)
+		g := gen.New(r, gen.Mode{Minor: minor, Gate: false, Text: gen.TextASCII, TextDates: true}, refmodel.Gates())
+		var msg any
+		if r.Bool() {
+			m := g.Request(nil)
+			msg = &m
+		} else {
+			m := g.Response(nil)
+			msg = &m
+		}
+		setVersion(msg, minor)
+		exp, err := refmodel.Tree(msg, minor)
+		if err != nil {
+			panic(err)
+		}
+		start := 0
+		if appendMode {
+			start = len(e.Bytes())
+		} else {
+			e.Clear()
+		}
+		var out []byte
+		if p, v, st := core.Guard(func() { e.Any(msg); out = append([]byte{}, e.Bytes()[start:]...) }); p {
+			c.Violation(core.PanicSig(v, st), fmt.Sprintf("%s encoder panicked on message %d of a sequence: %v", enc, k+1, v), map[string]any{"stack": st})
+			return
+		}
+		c.Count("sequence_messages", 1)
+		if appendMode {
+			c.Count("sequence_messages.appended", 1)
+		}
+		tree, perr := parse(out)
+		label := fmt.Sprintf("message %d of %d (versions 1.x: %s) through one %s encoder, appended=%v", k+1, K, seq, enc, appendMode)
+		if perr != nil {
+			c.Violation("C05:sequence:"+enc+":unreadable", fmt.Sprintf("%s: output cannot be read by the independent reader: %v", label, perr), map[string]any{"output": clipDoc(enc, out)})
+			return
+		}
+		if d := wire.DiffD(exp, tree); d.Kind != "" {
+			c.Violation(fmt.Sprintf("C05:sequence:encode@1.%d:%s:%s:%s", minor, enc, d.Kind, c01.Where(d)),
+				fmt.Sprintf("%s: the encoding for version 1.%d does not carry exactly the elements valid at that version: %s in %s", label, minor, d.Detail, c01.Where(d)),
+				map[string]any{"output": clipDoc(enc, out), "expected": exp.String()})
+			return
+		}
+	}
+	c.Distinct(core.Hash64("sequence", enc, seq, fmt.Sprint(appendMode)))
+}
+
+func clipDoc(enc string, b []byte) string {
+	if enc == "ttlv" {
+		return fmt.Sprintf("%x", b)
+	}
+	return string(b)
+}
+
 func Spec() *core.Spec {
 	fields := gatedFields()
 	return &core.Spec{
@@ -345,7 +423,7 @@ func Spec() *core.Spec {
 			"and the full 1.4 encoding with rewritten header version decoded; plus a diff of the version= annotations present in the tree against the pin. " +
 			"distinct = distinct expected layout shapes",
 		Assumptions: []string{"/verif/ref/version_gates.json is the pinned reading of KMIP 1.0-1.4 for the 61 fields; a field gated by the specification but unknown to both the library and the pin is invisible"},
-		Required:    []string{"messages", "decode_side_checks", "text_encoding_checks", "matrix.populated.present", "matrix.populated.absent", "matrix.unpopulated", "annotations_compared"},
+		Required:    []string{"messages", "decode_side_checks", "text_encoding_checks", "matrix.populated.present", "matrix.populated.absent", "matrix.unpopulated", "annotations_compared", "sequence_messages", "sequence_messages.appended"},
 		Families: []core.Family{
 			{Name: "annotations", Exhaustive: true, N: func(string) int { return 1 }, Run: func(c *core.Ctx, r *core.Rand, i int) {
 				live := map[string]string{}
@@ -427,6 +505,12 @@ func Spec() *core.Spec {
 					c.Sample(label)
 				}
 			}},
+			{Name: "sequence", N: func(tier string) int {
+				if tier == core.Thorough {
+					return 60000
+				}
+				return 1500
+			}, Run: sequenceCase},
 			{Name: "random", N: func(tier string) int {
 				if tier == core.Thorough {
 					return 600000
